@@ -35,6 +35,17 @@ def bases():
         ('s2disk', {'groups': {'1': g(DISK_GB=3), '2': g(DISK_GB=3)}, 'group_policy': 'none'}),
         ('m1disk', {'groups': {'': g(DISK_GB=3), '1': g(DISK_GB=3)}, 'group_policy': 'isolate'}),
         ('m1same2', {'groups': {'': g(VCPU=2), '1': g(VCPU=2)}}),
+        # a class repeated in groups that are NOT neighbours in the request
+        ('s3x', {'groups': {'1': g(VCPU=1), '2': g(DISK_GB=3), '3': g(VCPU=2)},
+                 'group_policy': 'none'}),
+        ('m2x', {'groups': {'': g(VCPU=1), '1': g(DISK_GB=3), '2': g(VCPU=2)},
+                 'group_policy': 'none'}),
+        # same_subtree given twice: every occurrence constrains (both orders, so that the one
+        # that bites is once the first and once the last)
+        ('ss2a', {'groups': {'1': g(VCPU=1), '2': g(SRIOV_NET_VF=2), '3': g(DISK_GB=3)},
+                  'group_policy': 'none', 'same_subtree': [['1', '2'], ['2', '3']]}),
+        ('ss2b', {'groups': {'1': g(VCPU=1), '2': g(SRIOV_NET_VF=2), '3': g(DISK_GB=3)},
+                  'group_policy': 'none', 'same_subtree': [['2', '3'], ['1', '2']]}),
     ]
 
 
